@@ -1,8 +1,9 @@
 #!/usr/bin/env python3
-"""tools/buildh.py <Cxx>: build the harness of a property and print its path."""
+"""tools/buildh.py <Cxx>: build the harness(es) of a property and print the path(s)."""
 import sys, os
 V = os.path.dirname(os.path.dirname(os.path.abspath(__file__)))
 sys.path.insert(0, V)
 g = {'__file__': os.path.join(V, 'check'), '__name__': 'checkmod'}
 exec(compile(open(os.path.join(V, 'check')).read(), os.path.join(V, 'check'), 'exec'), g)
-print(g['build_for'](g['REGISTRY'][sys.argv[1]]))
+for label, exe in g['build_variants'](g['REGISTRY'][sys.argv[1]]):
+    print(exe)
